@@ -1,6 +1,7 @@
 import Driver.Core
 import IGVerif.Model.Vis
 import IGVerif.Spec.Shape
+import Driver.GenSup
 namespace Drv
 open Lean IGVerif
 
@@ -54,7 +55,7 @@ def genVisCases (tier : String) (seed : Nat) (tagp : String) : Array Case := Id.
     let (s, rng') :=
       if i % 3 = 0 then genC01 { suffixes := false, maxDepth := 2, maxComps := 5 } rng
       else if i % 3 = 1 then genSupC02 2 rng
-      else genNested { depth := 1, pairs := true } rng
+      else genNestedSup { depth := 1, pairs := true } rng
     rng := rng'
     let kind := if i % 3 = 0 then "simple" else if i % 3 = 1 then "nested" else "pairs"
     for v in [0:32] do
